@@ -734,6 +734,21 @@ class Interp:
                 if eq:
                     return vbool(op == "Eq")
                 return ("bool", ("opaque", "int-" + op, T.ishow(x), T.ishow(y)))
+            if op in ("Lt", "Le", "Gt", "Ge"):
+                # unsigned comparison: decided for constants and for provably equal terms, otherwise
+                # an opaque condition in the canonical form  x < y  (both outcomes are explored)
+                if not x[3] and not y[3]:
+                    r = {"Lt": x[2] < y[2], "Le": x[2] <= y[2], "Gt": x[2] > y[2], "Ge": x[2] >= y[2]}[op]
+                    return vbool(r)
+                if T.iequal(x, y, st.F):
+                    return vbool(op in ("Le", "Ge"))
+                if op == "Lt":
+                    return ("bool", ("opaque", "int-Lt", T.ishow(x), T.ishow(y)))
+                if op == "Gt":
+                    return ("bool", ("opaque", "int-Lt", T.ishow(y), T.ishow(x)))
+                if op == "Ge":
+                    return ("bool", ("not", ("opaque", "int-Lt", T.ishow(x), T.ishow(y))))
+                return ("bool", ("not", ("opaque", "int-Lt", T.ishow(y), T.ishow(x))))
             if op in ("BitXor", "BitAnd", "BitOr", "Shl", "Shr", "Mul", "Div", "Rem", "ShlUnchecked", "ShrUnchecked", "MulUnchecked"):
                 if op in ("BitXor", "BitAnd", "BitOr", "Mul", "MulUnchecked") and T.akey(y) < T.akey(x):
                     x, y = y, x
